@@ -397,3 +397,99 @@ def c17(ctx):
     ctx.exhaustive = True
     ctx.extra_cov["exhaustive_subspace"] = "all 625 delivery patterns over the first four entropy requests x 3 customisations"
     ctx.assumptions += PRNG_ASSUME + ["over-claiming callbacks (return > requested size) violate the callback contract and are not generated"]
+
+
+# ---------------------------------------------------------------------------------- C18
+
+BASE_CFG = ["HAVE_STRINGS_H", "HAVE_EXPLICIT_BZERO", "HAVE_SYS_RANDOM_H", "HAVE_SYS_SYSCALL_H", "HAVE_TIME_H", "HAVE_SYS_TIME_H",
+            "HAVE_UNISTD_H", "HAVE_FCNTL_H"]
+
+
+@check("C18", "fault_enumeration", floor=2000)
+def c18(ctx):
+    import re, subprocess
+    load_replay(ctx)
+    ctx.model_selfcheck()
+    K = ctx.q(8, 10)
+    pre = os.path.join(ctx.scratch, "no_sys_getrandom.h")
+    with open(pre, "w") as f:
+        f.write("#include <sys/syscall.h>\n#undef SYS_getrandom\n")
+    variants = [
+        ("getrandom", BASE_CFG + ["HAVE_GETRANDOM", "HAVE_GETENTROPY"], None),
+        ("getentropy", BASE_CFG + ["HAVE_GETENTROPY"], None),
+        ("rawsyscall", BASE_CFG, None),
+        ("devurandom", BASE_CFG, pre),
+    ]
+    jobs = []
+    for name, cfg, pi in variants:
+        cfgd = ctx.make_config(name, cfg)
+        for cc, fl, tag in (("gcc", ["-O2"], ""), ("gcc", asan_flags("gcc"), "-asan")) + ((("clang", msan_flags(), "-msan"),) if ctx.thorough else ()):
+            lib = ctx.lib("trng-" + name + tag, cc, fl, cfg=cfgd, pre_include=pi)
+            hfl = fl if tag else []
+            exe = ctx.harness("h_trng-" + name + tag, "h_trng.c", lib, cc=cc, flags=hfl, ldflags=["-ldl"])
+            jobs += batch_jobs(ctx, exe, "trng-" + name + tag, ["--mode", name, "--p1", K], 4)
+    # the production object as configured by the project's own cmake run
+    cfgtxt = open(os.path.join(ctx.cfg_dir(), "config.h")).read()
+    prodmode = "getrandom" if re.search(r"^#define HAVE_GETRANDOM", cfgtxt, re.M) else "getentropy" if re.search(r"^#define HAVE_GETENTROPY", cfgtxt, re.M) else "rawsyscall"
+    p = ctx.prod()
+    exe = ctx.harness("h_trng-prod", "h_trng.c", {"static": p["static"]}, cc="gcc", ldflags=["-ldl"])
+    jobs += batch_jobs(ctx, exe, "prod-cmake-Release", ["--mode", prodmode, "--p1", K], 4)
+    ctx.run_jobs(jobs, timeout=1800)
+
+    # ---- end to end: unmodified production shared library under strace fault injection
+    if not ctx.replay:
+        e2e = os.path.join(ctx.scratch, "e2e_trng")
+        ctx.sh(["gcc", "-O1", "-I" + REPO + "/src", VERIF + "/harness/e2e_trng.c", "-L" + p["sodir"], "-ltinyjambu", "-Wl,-rpath," + p["sodir"], "-o", e2e])
+        def strace(inject):
+            log = os.path.join(ctx.scratch, "strace.log")
+            cmd = ["strace", "-f", "-e", "trace=getrandom", "-o", log] + (["-e", "inject=" + inject] if inject else []) + [e2e]
+            pr = subprocess.run(cmd, stdout=subprocess.PIPE, stderr=subprocess.PIPE, timeout=120)
+            lines = [l for l in open(log).read().splitlines() if "getrandom(" in l]
+            return pr.returncode, pr.stdout.decode(), lines
+        try:
+            rc, out, lines = strace(None)
+        except Exception as e:      # ptrace not permitted / strace missing: sub-check not run, said so
+            ctx.info.append("strace end-to-end sub-check NOT RUN: %s" % e)
+            lines = None
+        if lines is not None:
+            lib_idx = [i for i, l in enumerate(lines) if re.search(r", 32, 0\)", l)]
+            if rc != 0 or not lib_idx or "status=1" not in out:
+                ctx.inconclusive.append("strace dry run did not show the library's getrandom(32, 0) call: rc=%s out=%r lines=%r" % (rc, out, lines[:4]))
+            else:
+                n = lib_idx[0] + 1
+                ctx.count("strace_runs", 1)
+                for err, when, exp_status, exp_inj in (("EINTR", "%d..%d" % (n, n + 2), 1, 3), ("EAGAIN", "%d..%d" % (n, n + 4), 1, 5),
+                                                       ("EINTR", "%d..%d" % (n, n + 40), 1, 41),
+                                                       ("ENOSYS", "%d+" % n, 0, 1), ("EPERM", "%d+" % n, 0, 1), ("EIO", "%d+" % n, 0, 1)):
+                    rc, out, lines = strace("getrandom:error=%s:when=%s" % (err, when))
+                    inj = [l for l in lines if "(INJECTED)" in l]
+                    ctx.count("strace_runs", 1)
+                    ctx.count("strace_injected_calls_observed", len(inj))
+                    ctx.count("evaluations", 1)
+                    ctx.add_classes([("strace", err, when)])
+                    desc = {"build": "prod-shared-strace", "inject": "%s when=%s" % (err, when), "stdout": out, "strace": lines[-8:]}
+                    if not inj:
+                        ctx.inconclusive.append("strace injection %s did not fire" % err)
+                    elif rc != 0:
+                        ctx.violation("e2e-crash:%s" % err, desc)
+                    elif ("status=%d" % exp_status) not in out:
+                        ctx.violation("e2e-status:%s" % ("transient-not-retried" if exp_status else "permanent-reported-as-seeded"), desc)
+                    elif "usable=1" not in out or "blocks_differ=1" not in out:
+                        ctx.violation("e2e-unusable-after-fault:%s" % err, desc)
+                    elif len(inj) != exp_inj and exp_status == 1:
+                        ctx.violation("e2e-retry-count:%s" % err, desc)
+                    elif exp_status == 0 and len([l for l in lines if re.search(r", 32, 0\)", l)]) > 3:
+                        ctx.violation("e2e-keeps-calling-after-permanent-error:%s" % err, desc)
+                    if len(ctx.samples) < 12:
+                        ctx.samples.append({"h": "strace-e2e", "inject": "%s when=%s" % (err, when), "stdout": out.strip(), "injected_lines": len(inj)})
+    ctx.rule = ("fault space = finite sequences over {EINTR, EAGAIN, permanent error, success} returned by the OS entropy call. For each of four build "
+                "variants of the entropy source (getrandom(), getentropy(), raw syscall(SYS_getrandom), /dev/urandom open/read/close; selected by scratch "
+                "config.h files, ASan/UBSan twins, thorough: MSan) and for the cmake-built production object: ALL prefixes of length <= K over {EINTR, EAGAIN} "
+                "(/dev/urandom: also short read, K <= 6) x end in {success, EPERM, ENOSYS, EFAULT, EIO, EINVAL (, open fails)}, plus all-EINTR prefixes of 1000 "
+                "and 100000. Oracle: exact OS-call count (termination), status, bytes == OS bytes / zeroed defined buffer, fd census, open/close balance; every "
+                "5th script group goes through tinyjambu_prng_init and the shadow DRBG. End to end: production .so under strace -e inject (INJECTED lines prove firing). "
+                "class = (script index, end, via_prng).")
+    ctx.exhaustive = True
+    ctx.extra_cov["exhaustive_subspace"] = "all transient prefixes of length <= %d x 6 endings per build variant" % K
+    ctx.assumptions += ["EOF from /dev/urandom and short getrandom() returns are outside the property's fault alphabet",
+                        "libc-boundary interposition assumes the library reaches the OS through getrandom/getentropy/syscall/open/read/close"]
